@@ -12,6 +12,7 @@
  *                                            <order> = digits, each = "transfer i sends its next block request"; afterwards every
  *                                            unfinished transfer is completed; output per transfer <body hex|bad>:<responses>, `,`-joined
  *
+ *   wkev <events>                            block-level events (b<sid><szx>:<num>:<rtag|N>:<queries>, t<sid>, table events of wklive)
  *   wklive <events>                          a live server: `/`-separated events on ONE context, in order
  *                                            `+<path>:<flags>:<attrs>` / `!<path>`  coap_add_resource / coap_delete_resource (as in <table>)
  *                                            `a<path>:<own 0|4>:<name>[=<value>]`   coap_add_attr on the resource REGISTERED for <path>
@@ -563,6 +564,137 @@ out:
   h_delete_all_resources();
 }
 
+/* ---- wkev: block-level events on one context: single block requests (any number, Request-Tag), table changes while
+ *      transfers are under way, lg_xmit timeouts; output per block request <payload>:<M>:<E<k>|-> or e<code> ---- */
+static void do_wkev(char *script) {
+  static char *ev[160];
+  static uint64_t etags[160];
+  int netag = 0;
+  coap_session_t *sess[4] = { NULL, NULL, NULL, NULL };
+  int n = split(script, '/', ev, 160), i, k, nout = 0;
+  unsigned mid = 0x4000;
+  if (n < 0) { printf("bad-op"); return; }
+  for (i = 0; i < n; i++) {
+    char *e = ev[i];
+    if (e[0] == '+' || e[0] == '!') {
+      if (!apply_entry(e)) { printf("%sbad-op", nout ? "," : ""); goto out; }
+    } else if (e[0] == 'a') {
+      char *f[3];
+      coap_resource_t *r;
+      if (split(e + 1, ':', f, 3) != 3 || !hex_ok(f[0])) { printf("%sbad-op", nout ? "," : ""); goto out; }
+      r = registered(f[0]);
+      if (r) {
+        if (!add_attr(r, f[2], atoi(f[1]) == 4)) { printf("%sbad-op", nout ? "," : ""); goto out; }
+      } else {
+        char *eq = strchr(f[2], '=');
+        if (eq) *eq = 0;
+        if (!hex_ok(f[2]) || (eq && !hex_ok(eq + 1))) { printf("%sbad-op", nout ? "," : ""); goto out; }
+      }
+    } else if (e[0] == 'o') {
+      char *f[2];
+      coap_resource_t *r;
+      if (split(e + 1, ':', f, 2) != 2 || !hex_ok(f[0])) { printf("%sbad-op", nout ? "," : ""); goto out; }
+      r = registered(f[0]);
+      if (r) coap_resource_set_get_observable(r, atoi(f[1]) != 0);
+    } else if (e[0] == 't') {
+      int sid = e[1] - '0';
+      if (!e[1] || e[2] || sid < 0 || sid > 3) { printf("%sbad-op", nout ? "," : ""); goto out; }
+      if (sess[sid]) {
+        coap_tick_t now, rem;
+        coap_ticks(&now);
+        now += (coap_tick_t)1000000 * COAP_TICKS_PER_SECOND;
+        coap_lock_lock(ctx, );
+        coap_block_check_lg_xmit_timeouts(sess[sid], now, &rem);
+        coap_lock_unlock(ctx);
+      }
+    } else if (e[0] == 'b') {
+      char *f[4], *qw[8];
+      uint8_t *qv[8], *rt = NULL, tok[2], b[4];
+      size_t ql[8], rtl = 0, dl = 0;
+      const uint8_t *d = NULL;
+      int sid, szx, nq = 0, good = 1;
+      unsigned num;
+      coap_pdu_t *req, *rsp;
+      coap_opt_iterator_t oi;
+      coap_opt_t *o;
+      memset(qv, 0, sizeof(qv));
+      if (split(e + 1, ':', f, 4) != 4 || strlen(f[0]) != 2) { printf("%sbad-op", nout ? "," : ""); goto out; }
+      sid = f[0][0] - '0'; szx = f[0][1] - '0';
+      if (sid < 0 || sid > 3 || szx < 0 || szx > 6 || !f[1][0] || strspn(f[1], "0123456789") != strlen(f[1]) || strlen(f[1]) > 6) {
+        printf("%sbad-op", nout ? "," : ""); goto out;
+      }
+      num = (unsigned)atoi(f[1]);
+      if (strcmp(f[2], "N")) { rt = h_unhex(f[2], &rtl); if (!rt || rtl > 8) good = 0; }
+      if (good && strcmp(f[3], "N") && strcmp(f[3], "-")) {
+        nq = split(f[3], '+', qw, 8);
+        if (nq < 0) { good = 0; nq = 0; }
+        for (k = 0; good && k < nq; k++) { qv[k] = h_unhex(qw[k], &ql[k]); if (!qv[k]) good = 0; }
+      }
+      if (!good) { for (k = 0; k < 8; k++) free(qv[k]); free(rt); printf("%sbad-op", nout ? "," : ""); goto out; }
+      if (!sess[sid]) {
+        coap_address_t addr;
+        coap_address_init(&addr);
+        addr.size = sizeof(struct sockaddr_in);
+        addr.addr.sin.sin_family = AF_INET;
+        addr.addr.sin.sin_addr.s_addr = htonl(INADDR_LOOPBACK);
+        addr.addr.sin.sin_port = htons((uint16_t)(5683 + sid));
+        sess[sid] = coap_new_client_session(ctx, NULL, &addr, COAP_PROTO_UDP);
+        if (!sess[sid]) { for (k = 0; k < 8; k++) free(qv[k]); free(rt); printf("%sfail-session", nout ? "," : ""); goto out; }
+      }
+      req = coap_pdu_init(COAP_MESSAGE_CON, COAP_REQUEST_CODE_GET, (coap_mid_t)mid++, 1152);
+      tok[0] = 0xE0; tok[1] = (uint8_t)i;
+      coap_add_token(req, 2, tok);
+      coap_add_option(req, COAP_OPTION_URI_PATH, 11, (const uint8_t *)".well-known");
+      coap_add_option(req, COAP_OPTION_URI_PATH, 4, (const uint8_t *)"core");
+      for (k = 0; k < nq; k++) coap_add_option(req, COAP_OPTION_URI_QUERY, ql[k], qv[k]);
+      coap_add_option(req, COAP_OPTION_BLOCK2, coap_encode_var_safe(b, sizeof(b), (num << 4) | (unsigned)szx), b);
+      if (rt) coap_add_option(req, COAP_OPTION_RTAG, rtl, rt);
+      cap_n = 0; cap_len = 0;
+      coap_lock_lock(ctx, );
+      coap_dispatch(ctx, sess[sid], req);
+      coap_lock_unlock(ctx);
+      coap_delete_pdu(req);
+      for (k = 0; k < 8; k++) free(qv[k]);
+      free(rt);
+      if (nout++) fputc(',', stdout);
+      if (cap_n != 1) { printf("bad-nresp%d", cap_n); continue; }
+      rsp = coap_pdu_init(0, 0, 0, 2048);
+      if (!coap_pdu_parse(COAP_PROTO_UDP, cap, cap_len, rsp)) { coap_delete_pdu(rsp); printf("bad-parse"); continue; }
+      if (rsp->code != COAP_RESPONSE_CODE(205)) {
+        printf("e%d", (rsp->code >> 5) * 100 + (rsp->code & 0x1f));
+        coap_delete_pdu(rsp);
+        continue;
+      }
+      coap_get_data(rsp, &dl, &d);
+      o = coap_check_option(rsp, COAP_OPTION_BLOCK2, &oi);
+      {
+        unsigned more = 0;
+        if (o) {
+          unsigned v = coap_decode_var_bytes(coap_opt_value(o), coap_opt_length(o));
+          more = (v >> 3) & 1;
+          if ((v >> 4) != num || (int)(v & 7) != szx) { printf("bad-block%u.%u", v >> 4, v & 7); coap_delete_pdu(rsp); continue; }
+        }
+        h_puthex(stdout, d, dl);
+        printf(":%u:", more);
+      }
+      o = coap_check_option(rsp, COAP_OPTION_ETAG, &oi);
+      if (o) {
+        uint64_t et = coap_decode_var_bytes8(coap_opt_value(o), coap_opt_length(o));
+        for (k = 0; k < netag; k++) if (etags[k] == et) break;
+        if (k == netag && netag < 160) etags[netag++] = et;
+        printf("E%d", k);
+      } else printf("-");
+      coap_delete_pdu(rsp);
+    } else {
+      printf("%sbad-op", nout ? "," : ""); goto out;
+    }
+  }
+  if (!nout) printf(".");
+out:
+  for (i = 0; i < 4; i++) if (sess[i]) coap_session_release(sess[i]);
+  h_delete_all_resources();
+}
+
 static void do_match(const char *t, const char *p, int pfx, int sub) {
   size_t tl, pl;
   uint8_t *tb = h_unhex(t, &tl), *pb = h_unhex(p, &pl), *te, *pe;
@@ -583,6 +715,7 @@ static void step(char *line) {
   if (n == 3 && !strcmp(w[0], "body")) { do_body(w[1], w[2]); return; }
   if (n == 4 && !strcmp(w[0], "get")) { do_get(w[1], w[2], atoi(w[3])); return; }
   if (n == 2 && !strcmp(w[0], "wklive")) { do_wklive(w[1]); return; }
+  if (n == 2 && !strcmp(w[0], "wkev")) { do_wkev(w[1]); return; }
   if (n == 4 && !strcmp(w[0], "getx")) { do_getx(w[1], atoi(w[2]), w[3]); return; }
   if (n == 5 && !strcmp(w[0], "match")) { do_match(w[1], w[2], atoi(w[3]), atoi(w[4])); return; }
   printf("bad-op");
